@@ -210,6 +210,36 @@ func checkEntity(fl *failer, ix *index, pkg string, e *j5sgen.Entity, peers []st
 			}
 		}
 	}
+	// schemas declared inside the entity block are ordinary schemas of the package
+	for _, n := range e.Nested {
+		switch {
+		case n.Object != nil && ix.msgs[pkg+"."+n.Object.Name] == nil:
+			fl.add("nested|missing|object", "%s: object %s declared inside the entity is not generated", e.Name, n.Object.Name)
+		case n.Oneof != nil && ix.msgs[pkg+"."+n.Oneof.Name] == nil:
+			fl.add("nested|missing|oneof", "%s: oneof %s declared inside the entity is not generated", e.Name, n.Oneof.Name)
+		case n.Enum != nil && ix.enums[pkg+"."+n.Enum.Name] == nil:
+			fl.add("nested|missing|enum", "%s: enum %s declared inside the entity is not generated", e.Name, n.Enum.Name)
+		}
+	}
+	if md := msg("Data"); md != nil {
+		// data fields keep their declared types (refs to nested schemas resolve)
+		for i, d := range e.Data {
+			if i >= md.Fields().Len() || d.Type.Ref == nil {
+				continue
+			}
+			f := md.Fields().Get(i)
+			got := ""
+			switch {
+			case f.Message() != nil:
+				got = string(f.Message().FullName())
+			case f.Enum() != nil:
+				got = string(f.Enum().FullName())
+			}
+			if want := d.Type.Ref.Package + "." + d.Type.Ref.Name; got != want && d.Type.Ref.Package == pkg {
+				fl.add("data|ref-type", "%sData.%s has type %q, declared %s", C, d.Name, got, want)
+			}
+		}
+	}
 	if md := msg("Data"); md != nil && md.Fields().Len() != len(e.Data) {
 		fl.add("data|count", "%sData has %d fields, %d declared", C, md.Fields().Len(), len(e.Data))
 	}
